@@ -18,7 +18,7 @@ import z3
 
 from pyvc.core import (SV, SInt, SBool, SSeq, SDict, Obj, Val, VInt, VStr, VNone, is_VInt, is_VStr, IntS,
                        BoolS, run, run_raises, to_val, to_int, PyRaise, Unsupported, Stub)
-from pyvc.driver import Ob
+from pyvc.driver import Ob, cover_hyps
 from pyvc.ground import Q
 from pyvc.stmt import LoopSpec
 from pyvc.interp import Interp
@@ -280,7 +280,7 @@ def binder_obligations(chk, I, flags, clsname, restrict_accept=True, tag=""):
     # vacuity: the precondition of this row is satisfiable and a canary clause must be refutable
     p0 = results[0][0] if results else None
     if p0 is not None:
-        chk.add(Ob(func, f"cover[{rowname}]", "pre", results[0][0].hyps, z3.BoolVal(True), expect="sat"))
+        chk.add(Ob(func, f"cover[{rowname}]", "pre", cover_hyps(results), z3.BoolVal(True), expect="sat"))
     return n
 
 
